@@ -3,6 +3,7 @@ package main
 // Rules over DecoderBuffer and Decoder (C04 C05 C06 C07 C17 C18).
 
 import (
+	"os"
 	"fmt"
 	"go/token"
 	"go/types"
@@ -214,7 +215,7 @@ func ruleShrinkSafe(c *Ctx) {
 		c.check(okW, name+":delta≤len-W", k.Copy.Pos(), "δ ≤ doz(len(Data), WindowSize): the last WindowSize bytes stay addressable",
 			"discarded count δ is not bounded by doz(len(Data), WindowSize): window history can be dropped")
 		// R -= δ, Data = Data[:copied], Off untouched, return δ
-		okRs, okData, offTouched, okRet := false, false, false, false
+		okRs, okData, offTouched := false, false, false
 		for _, b := range fn.Blocks {
 			for _, in := range b.Instrs {
 				st, ok := in.(*ssa.Store)
@@ -240,52 +241,95 @@ func ruleShrinkSafe(c *Ctx) {
 					offTouched = true
 				}
 			}
-			if r, ok := b.Instrs[len(b.Instrs)-1].(*ssa.Return); ok && (blk == b || blk.Dominates(b)) && len(r.Results) == 1 {
-				okRet = fi.lin(r.Results[0]).eq(d)
-			}
 		}
 		c.check(okRs, name+":R-=delta", k.Copy.Pos(), "R is decreased by exactly δ", "R is not decreased by exactly the discarded count δ after the copy")
 		c.check(okData, name+":reslice", k.Copy.Pos(), "Data re-sliced to the copied count", "Data is not re-sliced to the count returned by copy")
 		c.check(!offTouched, name+":Off", k.Copy.Pos(), "Off not touched by compaction", "compaction stores to Off (Off counts bytes written, not bytes retained)")
-		c.check(okRet, name+":returns-delta", k.Copy.Pos(), "returns δ", "the compaction function does not return the discarded count δ")
-		// progress: nothing is held back — a return without compaction happens only when δ = 0
-		okP := true
-		nZ := 0
+		// what is returned, per way into each return: δ where the copy was executed, 0 where it was not;
+		// and the copy may be skipped only when δ ≤ 0 or the request already fits (g ≤ BufferSize)
+		okRet, okZero, okP := true, true, true
+		nRet, nZ := 0, 0
+		type way struct {
+			executed bool
+			conds    []Cond
+			res      Lin
+		}
 		for _, b := range fn.Blocks {
 			r, ok := b.Instrs[len(b.Instrs)-1].(*ssa.Return)
-			if !ok || b == blk || blk.Dominates(b) {
+			if !ok || len(r.Results) != 1 {
 				continue
 			}
-			nZ++
-			_ = r
-			// either nothing can be released (δ ≤ 0 here) or the request fits without compaction
-			// (g ≤ BufferSize after the capacity was adopted)
-			fits := false
-			if len(fn.Params) >= 2 {
-				for _, bs := range fi.atomsWithSuffix(".BufferSize") {
-					if fi.proveAt(fi.lin(fn.Params[1]).sub(linAtom(bs)), b, nil) {
-						fits = true
+			var ways []way
+			switch {
+			case blk == b || blk.Dominates(b):
+				ways = append(ways, way{true, fi.condsAt(b), fi.lin(r.Results[0])})
+			case !fi.instrReaches(k.Copy, r):
+				ways = append(ways, way{false, fi.condsAt(b), fi.lin(r.Results[0])})
+			default:
+				// the return collects both kinds of paths: split at the merge
+				m := b
+				for len(m.Preds) == 1 {
+					m = m.Preds[0]
+				}
+				for i, p := range m.Preds {
+					res := fi.lin(r.Results[0])
+					if ph, isPhi := r.Results[0].(*ssa.Phi); isPhi && ph.Block() == m {
+						res = fi.lin(ph.Edges[i])
 					}
+					cs := append(append([]Cond{}, fi.condsAt(b)...), fi.edgeConds(p, m)...)
+					ways = append(ways, way{p == blk || blk.Dominates(p), cs, res})
 				}
 			}
-			definedHere := true
-			if in, isIn := k.Delta.(ssa.Instruction); isIn && !(in.Block() == b || in.Block().Dominates(b)) {
-				definedHere = false
-			}
-			if !fits && !(definedHere && fi.proveAt(d, b, nil)) {
-				okP = false
+			for _, w := range ways {
+				eq := func(x, y Lin) bool {
+					return x.eq(y) || (fi.proveLE0(x.sub(y), w.conds, nil, map[string]bool{}, 0) && fi.proveLE0(y.sub(x), w.conds, nil, map[string]bool{}, 0))
+				}
+				if w.executed {
+					nRet++
+					if !eq(w.res, d) {
+						okRet = false
+					}
+					continue
+				}
+				nZ++
+				if !eq(w.res, linConst(0)) {
+					okZero = false
+				}
+				fits := false
+				if len(fn.Params) >= 2 {
+					for _, bs := range fi.atomsWithSuffix(".BufferSize") {
+						if fi.proveLE0(fi.lin(fn.Params[1]).sub(linAtom(bs)), w.conds, nil, map[string]bool{}, 0) {
+							fits = true
+						}
+					}
+				}
+				if !fits && len(fn.Params) >= 2 {
+					// … or against the value just stored to BufferSize on this path (the adopted capacity)
+					for _, sb := range fn.Blocks {
+						if !(sb == b || sb.Dominates(b)) {
+							continue
+						}
+						for _, in := range sb.Instrs {
+							if st, isSt := in.(*ssa.Store); isSt {
+								if p, okp := recvPath(fn, st.Addr); okp && lastField(p) == "BufferSize" {
+									if fi.proveLE0(fi.lin(fn.Params[1]).sub(fi.lin(st.Val)), w.conds, nil, map[string]bool{}, 0) {
+										fits = true
+									}
+								}
+							}
+						}
+					}
+				}
+				definedHere := true
+				if in, isIn := k.Delta.(ssa.Instruction); isIn && !(in.Block() == b || in.Block().Dominates(b)) {
+					definedHere = false
+				}
+				if !fits && !(definedHere && fi.proveLE0(d, w.conds, nil, map[string]bool{}, 0)) {
+					okP = false
+				}
 			}
 		}
-		okZero := true
-		for _, b := range fn.Blocks {
-			r, ok := b.Instrs[len(b.Instrs)-1].(*ssa.Return)
-			if !ok || b == blk || blk.Dominates(b) || len(r.Results) != 1 {
-				continue
-			}
-			if !isConstZero(r.Results[0]) {
-				okZero = false
-			}
-		}
+		c.check(okRet && nRet > 0, name+":returns-delta", k.Copy.Pos(), "returns δ", "the compaction function does not return the discarded count δ")
 		c.check(okZero, name+":returns-0-otherwise", k.Copy.Pos(), "returns 0 whenever nothing was discarded", "the compaction function returns a non-zero value on a path that discards nothing: callers subtract the result from lengths captured before the call (R-STALELEN), so byte counts and Off would be wrong")
 		c.check(okP && nZ > 0, name+":frees-all", k.Copy.Pos(), "compaction is skipped only when δ = min(R, len(Data)−WindowSize) is 0 or the request already fits: every drained byte outside the window is released",
 			"the compaction function can return without compacting although δ > 0 (space that a drain made reclaimable is held back): the Decoder's retry loops rely on a drain followed by compaction making progress and would spin")
@@ -1301,7 +1345,17 @@ func (c *Ctx) backEdgesHaveProgress(fi *FuncInfo, rl retryLoop) bool {
 	if len(counts) == 0 {
 		return false
 	}
-	hasProgress := func(conds []Cond) bool {
+	var hasProgress func(conds []Cond) bool
+	hasProgress = func(conds []Cond) bool {
+		// ¬(kk == 0 && ll == 0 && w == 0) as a materialised boolean (switch case): every alternative
+		if alts := fi.expandConds(conds); alts != nil {
+			for _, alt := range alts {
+				if !hasProgress(alt) {
+					return false
+				}
+			}
+			return len(alts) > 0
+		}
 		for _, f := range fi.factsOf(conds) {
 			for a, co := range f.L.t {
 				base := a
@@ -1476,7 +1530,9 @@ func ruleCapErr(c *Ctx) {
 	if len(gs) < 3 {
 		c.fail("classes", token.NoPos, "fewer than three decoder error values found (%v)", gs)
 	}
-	// Decoder methods: which inner errors can escape
+	// Decoder methods: which inner errors can escape. Every way a value can enter the returned error
+	// (through merges; a loop-carried error variable is followed one step into the loop) is examined
+	// with the conditions of that way.
 	for _, fn := range c.methodsOf(c.decoder()) {
 		fi := c.info(fn)
 		for _, b := range fn.Blocks {
@@ -1488,95 +1544,74 @@ func ruleCapErr(c *Ctx) {
 			if !isErrorType(last.Type()) {
 				continue
 			}
-			// direct return of a capacity-class global
-			if g := errGlobalName(last); g != "" && classes[g] == "capacity" {
-				c.fail(fmt.Sprintf("%s:%s-escapes", fnName(fn), g), r.Pos(), "capacity-class error %s is returned to the caller of Decoder.%s: valid input is refused because of its size", g, fn.Name())
-				continue
-			}
-			// error flowing from an inner DecoderBuffer call
-			ex, ok := last.(*ssa.Extract)
-			if !ok {
-				continue
-			}
-			call, ok := ex.Tuple.(*ssa.Call)
-			if !ok {
-				continue
-			}
-			callee := call.Call.StaticCallee()
-			if callee == nil || !c.isMethodOf(callee, db) || callee.Name() == "WriteTo" {
-				continue
-			}
-			inner := c.classifyErrors(callee)
-			var igs []string
-			for g := range inner {
-				igs = append(igs, g)
-			}
-			sort.Strings(igs)
-			for _, g := range igs {
-				if classes[g] != "capacity" {
-					continue
+			for _, lf := range mergeLeaves(last) {
+				conds := fi.condsAt(b)
+				if lf.Pred != nil {
+					conds = append(append([]Cond{}, conds...), fi.edgeConds(lf.Pred, lf.Phi.Block())...)
 				}
-				key := fmt.Sprintf("%s:%s-escapes", fnName(fn), g)
-				// excluded by a dominating err != G ?
-				excluded := false
-				for _, cd := range fi.condsAt(b) {
-					cd = unNot(cd)
-					bo, ok := cd.V.(*ssa.BinOp)
-					if !ok || (bo.Op != token.EQL && bo.Op != token.NEQ) {
-						continue
-					}
-					if (bo.X == ex && errGlobalName(bo.Y) == g) || (bo.Y == ex && errGlobalName(bo.X) == g) {
-						if (bo.Op == token.NEQ) == cd.True {
-							excluded = true
+				// the values behind a loop-carried error variable
+				srcs := []ssa.Value{lf.V}
+				if ph, isPhi := lf.V.(*ssa.Phi); isPhi {
+					srcs = nil
+					for _, e := range ph.Edges {
+						if e != ssa.Value(ph) {
+							srcs = append(srcs, e)
 						}
 					}
 				}
-				if excluded {
-					c.ok(key, r.Pos(), "%s from DecoderBuffer.%s is excluded on this return", g, callee.Name())
-				} else {
-					c.fail(key, r.Pos(), "capacity-class error %s of DecoderBuffer.%s escapes Decoder.%s: valid parser output (a sequence or literal run larger than the free space / the window) is refused", g, callee.Name(), fn.Name())
-				}
-			}
-		}
-	}
-	// the single-call inner errors of DecoderBuffer.WriteByte are returned through a plain variable
-	for _, fn := range c.methodsOf(c.decoder()) {
-		fi := c.info(fn)
-		for _, b := range fn.Blocks {
-			r, ok := b.Instrs[len(b.Instrs)-1].(*ssa.Return)
-			if !ok || len(r.Results) != 1 {
-				continue
-			}
-			call, ok := r.Results[0].(*ssa.Call)
-			if !ok {
-				continue
-			}
-			callee := call.Call.StaticCallee()
-			if callee == nil || !c.isMethodOf(callee, db) || callee.Name() == "WriteTo" {
-				continue
-			}
-			for g := range c.classifyErrors(callee) {
-				if classes[g] != "capacity" {
-					continue
-				}
-				key := fmt.Sprintf("%s:%s-escapes", fnName(fn), g)
-				excluded := false
-				for _, cd := range fi.condsAt(b) {
-					cd = unNot(cd)
-					bo, ok := cd.V.(*ssa.BinOp)
-					if !ok {
+				for _, src := range srcs {
+					// direct return of a capacity-class global
+					if g := errGlobalName(src); g != "" && classes[g] == "capacity" {
+						c.fail(fmt.Sprintf("%s:%s-escapes", fnName(fn), g), r.Pos(), "capacity-class error %s is returned to the caller of Decoder.%s: valid input is refused because of its size", g, fn.Name())
 						continue
 					}
-					if (bo.X == call && errGlobalName(bo.Y) == g) || (bo.Y == call && errGlobalName(bo.X) == g) {
-						if (bo.Op == token.NEQ) == cd.True {
-							excluded = true
+					// error flowing from an inner DecoderBuffer call
+					var call *ssa.Call
+					if ex, ok := src.(*ssa.Extract); ok {
+						call, _ = ex.Tuple.(*ssa.Call)
+					} else if cl, ok := src.(*ssa.Call); ok {
+						call = cl
+					}
+					if call == nil {
+						continue
+					}
+					callee := call.Call.StaticCallee()
+					if callee == nil || !c.isMethodOf(callee, db) || callee.Name() == "WriteTo" {
+						continue
+					}
+					inner := c.classifyErrors(callee)
+					var igs []string
+					for g := range inner {
+						igs = append(igs, g)
+					}
+					sort.Strings(igs)
+					for _, g := range igs {
+						if classes[g] != "capacity" {
+							continue
+						}
+						key := fmt.Sprintf("%s:%s-escapes", fnName(fn), g)
+						// excluded by err != G on this way (the test may be on the merged variable)
+						excluded := false
+						for _, cd := range conds {
+							cd = unNot(cd)
+							bo, ok := cd.V.(*ssa.BinOp)
+							if !ok || (bo.Op != token.EQL && bo.Op != token.NEQ) {
+								continue
+							}
+							for _, who := range []ssa.Value{src, lf.V} {
+								if (bo.X == who && errGlobalName(bo.Y) == g) || (bo.Y == who && errGlobalName(bo.X) == g) {
+									if (bo.Op == token.NEQ) == cd.True {
+										excluded = true
+									}
+								}
+							}
+						}
+						if excluded {
+							c.ok(key, r.Pos(), "%s from DecoderBuffer.%s is excluded on this return", g, callee.Name())
+						} else {
+							c.fail(key, r.Pos(), "capacity-class error %s of DecoderBuffer.%s escapes Decoder.%s: valid parser output (a sequence or literal run larger than the free space / the window) is refused", g, callee.Name(), fn.Name())
 						}
 					}
-				}
-				if excluded {
-					c.ok(key, r.Pos(), "%s from DecoderBuffer.%s is excluded on this return", g, callee.Name())
-				} else {
-					c.fail(key, r.Pos(), "capacity-class error %s of DecoderBuffer.%s escapes Decoder.%s", g, callee.Name(), fn.Name())
 				}
 			}
 		}
@@ -1598,48 +1633,50 @@ func ruleWinAgree(c *Ctx) {
 			if c.classifyErrors(fn)[g] != "validity" {
 				continue
 			}
-			// a rejection that compares the offset with a window-derived bound
-			conds := fi.condsAt(b)
-			if len(conds) == 0 {
-				continue
-			}
-			cd := unNot(conds[0])
-			bo, ok := cd.V.(*ssa.BinOp)
-			if !ok || (bo.Op == token.EQL || bo.Op == token.NEQ) {
-				continue
-			}
-			if !mentionsValidity(bo.X, 0) && !mentionsValidity(bo.Y, 0) {
-				continue
-			}
-			var off, bound ssa.Value
-			if isOffsetValue(bo.X) {
-				off, bound = bo.X, bo.Y
-			} else if isOffsetValue(bo.Y) {
-				off, bound = bo.Y, bo.X
-			} else {
-				continue
-			}
-			n++
-			// on the error edge: Offset ≥ bound + 1
-			strict := fi.proveLE(fi.lin(bound).sub(fi.lin(off)).addc(1), b, nil)
-			// bound ≥ min(len(Data)[+LitLen], WindowSize): each defining edge carries WindowSize or a len(Data)-based value
-			exact := true
-			for _, lf := range phiLeaves(stripConv(bound)) {
-				l := fi.lin(lf.V)
-				_, isW := atomEndsWith(l, ".WindowSize")
-				hasLen := false
-				for a, co := range l.t {
-					if strings.HasPrefix(a, "len(") && strings.Contains(a, ".Data") && co == 1 {
-						hasLen = true
+			// a rejection that compares the offset with a window-derived bound; an exit entered from several
+			// branches (a || b) is examined per way in
+			for _, conds := range fi.waysInto(b) {
+				if len(conds) == 0 {
+					continue
+				}
+				cd := unNot(conds[0])
+				bo, ok := cd.V.(*ssa.BinOp)
+				if !ok || (bo.Op == token.EQL || bo.Op == token.NEQ) {
+					continue
+				}
+				if !mentionsValidity(bo.X, 0) && !mentionsValidity(bo.Y, 0) {
+					continue
+				}
+				var off, bound ssa.Value
+				if isOffsetValue(bo.X) {
+					off, bound = bo.X, bo.Y
+				} else if isOffsetValue(bo.Y) {
+					off, bound = bo.Y, bo.X
+				} else {
+					continue
+				}
+				n++
+				// on the error edge: Offset ≥ bound + 1
+				strict := fi.proveLE0(fi.lin(bound).sub(fi.lin(off)).addc(1), conds, nil, map[string]bool{}, 0)
+				// bound ≥ min(len(Data)[+LitLen], WindowSize): each defining edge carries WindowSize or a len(Data)-based value
+				exact := true
+				for _, lf := range phiLeaves(stripConv(bound)) {
+					l := fi.lin(lf.V)
+					_, isW := atomEndsWith(l, ".WindowSize")
+					hasLen := false
+					for a, co := range l.t {
+						if strings.HasPrefix(a, "len(") && strings.Contains(a, ".Data") && co == 1 {
+							hasLen = true
+						}
+					}
+					if !isW && !(hasLen && l.c >= 0) {
+						exact = false
 					}
 				}
-				if !isW && !(hasLen && l.c >= 0) {
-					exact = false
-				}
+				c.check(strict && exact, key, b.Instrs[0].Pos(),
+					"offset rejected only if Offset > min(len(Data)[+LitLen], WindowSize)",
+					fmt.Sprintf("the decoder rejects offsets that the parsers may emit: rejection is not exactly Offset > min(len(Data)[+LitLen], WindowSize) (strict=%v, bound exact=%v)", strict, exact))
 			}
-			c.check(strict && exact, key, b.Instrs[0].Pos(),
-				"offset rejected only if Offset > min(len(Data)[+LitLen], WindowSize)",
-				fmt.Sprintf("the decoder rejects offsets that the parsers may emit: rejection is not exactly Offset > min(len(Data)[+LitLen], WindowSize) (strict=%v, bound exact=%v)", strict, exact))
 		}
 		if n == 0 {
 			c.fail(key, fn.Pos(), "no window rejection found")
@@ -1750,6 +1787,14 @@ func ruleStaleLen(c *Ctx) {
 							corrected = false
 						}
 					}
+					if !corrected && os.Getenv("LZDBG2") != "" {
+						cr := c.resultCarriers(fi, call)
+						var ns []string
+						for v := range cr {
+							ns = append(ns, v.Name())
+						}
+						fmt.Fprintf(os.Stderr, "DBG stalelen call=%s carriers=%v subs=%d subtracts=%v\n", call.Name(), ns, len(c.subtractionsOf(fn, call)), c.subtractsResult(bo.Y, call, map[ssa.Value]bool{}))
+					}
 					if !corrected {
 						allOK = false
 						c.fail(key, bo.Pos(), "len(Data) read after the call at %s, which may discard bytes from the front of Data, is combined with a length captured before it without subtracting the discarded count: the difference undercounts the appended bytes (n, Off go wrong, even negative)", c.pos(call.Pos()))
@@ -1772,6 +1817,13 @@ func (c *Ctx) subtractsResult(v ssa.Value, call *ssa.Call, seen map[ssa.Value]bo
 		return false
 	}
 	seen[v] = true
+	if bo, ok := v.(*ssa.BinOp); ok && bo.Op == token.SUB {
+		if in, ok := v.(ssa.Instruction); ok && in.Parent() != nil {
+			if c.resultCarriers(c.info(in.Parent()), call)[stripConv(bo.Y)] {
+				return true
+			}
+		}
+	}
 	switch x := v.(type) {
 	case *ssa.Phi:
 		for _, e := range x.Edges {
@@ -2162,23 +2214,31 @@ func ruleErrSurface(c *Ctx) {
 					c.fail(key, call.Pos(), "the error of WriteTo is discarded")
 					continue
 				}
-				// every path from the call: either returns errv directly, or tests errv != nil and returns it on the true edge
+				// some return hands errv to the caller: directly, or on a way into the returned (merged) error
+				// variable that is taken unconditionally or under errv != nil
 				ok2 := false
 				for _, bb := range fn.Blocks {
 					r, isR := bb.Instrs[len(bb.Instrs)-1].(*ssa.Return)
 					if !isR {
 						continue
 					}
-					last := r.Results[len(r.Results)-1]
-					if last != errv {
-						continue
-					}
-					if bb == b {
-						ok2 = true // returned unconditionally
-					}
-					for _, cd := range fi.condsAt(bb) {
-						if isNilCmp(cd, errv) == +1 {
-							ok2 = true
+					for _, lf := range mergeLeaves(r.Results[len(r.Results)-1]) {
+						if lf.V != errv {
+							continue
+						}
+						conds := fi.condsAt(bb)
+						at := bb
+						if lf.Pred != nil {
+							conds = append(append([]Cond{}, conds...), fi.edgeConds(lf.Pred, lf.Phi.Block())...)
+							at = lf.Pred
+						}
+						if at == b {
+							ok2 = true // returned unconditionally
+						}
+						for _, cd := range conds {
+							if isNilCmp(cd, errv) == +1 {
+								ok2 = true
+							}
 						}
 					}
 				}
@@ -2214,9 +2274,29 @@ func ruleErrSurface(c *Ctx) {
 						continue
 					}
 					if r, isR := bb.Instrs[len(bb.Instrs)-1].(*ssa.Return); isR {
-						last := r.Results[len(r.Results)-1]
-						if last != errv && !nilKnown(bb) {
-							bad = fmt.Sprintf("the return at %s can be reached while the writer's error is still non-nil and returns a different error value", c.pos(r.Pos()))
+						for _, lf := range mergeLeaves(r.Results[len(r.Results)-1]) {
+							if lf.V == errv {
+								continue
+							}
+							if lf.Pred == nil {
+								if !nilKnown(bb) {
+									bad = fmt.Sprintf("the return at %s can be reached while the writer's error is still non-nil and returns a different error value", c.pos(r.Pos()))
+								}
+								continue
+							}
+							// a way into the merged error variable: relevant only when it can be taken after the drain
+							if !reach[lf.Pred] && lf.Pred != b {
+								continue
+							}
+							known := nilKnown(bb) || nilKnown(lf.Pred)
+							for _, cd := range fi.edgeConds(lf.Pred, lf.Phi.Block()) {
+								if isNilCmp(cd, errv) == -1 {
+									known = true
+								}
+							}
+							if !known {
+								bad = fmt.Sprintf("the return at %s can be reached while the writer's error is still non-nil and returns a different error value", c.pos(r.Pos()))
+							}
 						}
 					}
 					if lp != nil {
@@ -2238,14 +2318,74 @@ func key0(fn *ssa.Function, n int) string { return fmt.Sprintf("%s:Data-store#%d
 // subtractionsOf: the instructions x − result(call) in fn.
 func (c *Ctx) subtractionsOf(fn *ssa.Function, call *ssa.Call) []ssa.Instruction {
 	var out []ssa.Instruction
+	carriers := c.resultCarriers(c.info(fn), call)
 	for _, b := range fn.Blocks {
 		for _, in := range b.Instrs {
-			if bo, ok := in.(*ssa.BinOp); ok && bo.Op == token.SUB && stripConv(bo.Y) == call {
+			if bo, ok := in.(*ssa.BinOp); ok && bo.Op == token.SUB && carriers[stripConv(bo.Y)] {
 				out = append(out, bo)
 			}
 		}
 	}
 	return out
+}
+
+// resultCarriers: the values that hold the result of call whenever the call was executed: the call
+// itself, conversions of carriers, and merge φs each of whose edges either brings a carrier or comes
+// from a block the call cannot reach (δ = φ(0 on the no-compaction path, shrink(…) otherwise)).
+func (c *Ctx) resultCarriers(fi *FuncInfo, call *ssa.Call) map[ssa.Value]bool {
+	S := map[ssa.Value]bool{call: true}
+	for changed := true; changed; {
+		changed = false
+		for _, b := range fi.fn.Blocks {
+			for _, in := range b.Instrs {
+				v, ok := in.(ssa.Value)
+				if !ok || S[v] {
+					continue
+				}
+				switch x := in.(type) {
+				case *ssa.Convert:
+					if S[x.X] {
+						S[v], changed = true, true
+					}
+				case *ssa.ChangeType:
+					if S[x.X] {
+						S[v], changed = true, true
+					}
+				case *ssa.Extract:
+					if S[x.Tuple] && x.Index == 0 {
+						S[v], changed = true, true
+					}
+				case *ssa.Phi:
+					// not a loop header
+					hdr := false
+					for _, p := range b.Preds {
+						if b.Dominates(p) {
+							hdr = true
+						}
+					}
+					if hdr {
+						continue
+					}
+					all, some := true, false
+					for i, e := range x.Edges {
+						if S[e] || S[stripConv(e)] {
+							some = true
+							continue
+						}
+						p := b.Preds[i]
+						// (reached without passing the φ's own block again: a later visit re-assigns the φ)
+						if p == call.Block() || c.reachesAvoiding(fi, call, p.Instrs[len(p.Instrs)-1], []ssa.Instruction{b.Instrs[0]}) {
+							all = false
+						}
+					}
+					if all && some {
+						S[v], changed = true, true
+					}
+				}
+			}
+		}
+	}
+	return S
 }
 
 // reachesAvoiding: is there a path from instruction a to instruction b that
